@@ -219,6 +219,7 @@ fn boundary_ips() -> Vec<Ipv4Addr> {
 }
 
 pub fn run(out: &mut Out, seed: u64, thorough: bool, replay: Option<&str>) {
+    out.stateless = true;
     let mut s = IdStream;
     if let Some(p) = replay {
         return replay_file(&mut s, out, p);
